@@ -58,6 +58,8 @@ impl Fringe for PTapeFringe<'_> {
 /// the finalisation of other workers' diagrams)
 #[derive(Default)]
 pub struct PTapeCache<C: Cache<State = i64> + Default> { inner: C }
+/// gap() of the last solver run (C17 is also evaluated on the solvers' own gap(): a solver may override the default method)
+pub static LAST_GAP: Mutex<String> = Mutex::new(String::new());
 pub static CACHE_YIELD: AtomicUsize = AtomicUsize::new(0);
 pub static STRESS: AtomicUsize = AtomicUsize::new(0);
 impl<C: Cache<State = i64> + Default> Cache for PTapeCache<C> {
@@ -188,6 +190,7 @@ pub fn run_scheduled(fam: &Fam, cfg: &PCfg) -> PRun {
                 s.set_primal(*v - 1, vec![Decision { variable: Variable(0), value: 78 }]);
             }
                 let c = s.maximize();
+                *LAST_GAP.lock().unwrap() = crate::out::catch(|| crate::eng_small::f32_tokens(s.gap())).unwrap_or("panic".into());
                 (c.is_exact, c.best_value, s.best_lower_bound(), s.best_upper_bound(), s.explored(), s.best_solution())
             })
         }
@@ -244,7 +247,7 @@ pub fn run_scheduled(fam: &Fam, cfg: &PCfg) -> PRun {
 }
 fn prun_tok(r: &PRun) -> String {
     let status = if r.deadlock { "deadlock".to_string() } else if r.overrun || r.hung_pops { "overrun".into() } else if r.fin.is_none() { "panic".into() } else { "done".into() };
-    let fin = match &r.fin { Some((e, v, lb, ub, ex, sol)) => format!("{} {} {} {} {} {} | {}", *e as u8, v.map(|x| x.to_string()).unwrap_or("none".into()), lb, ub, ex, r.polls, sol.as_ref().map(|s| decs(s)).unwrap_or("none".into())), None => "- | none".into() };
+    let fin = match &r.fin { Some((e, v, lb, ub, ex, sol)) => format!("{} {} {} {} {} {} g {} | {}", *e as u8, v.map(|x| x.to_string()).unwrap_or("none".into()), lb, ub, ex, r.polls, LAST_GAP.lock().unwrap().clone(), sol.as_ref().map(|s| decs(s)).unwrap_or("none".into())), None => "- | none".into() };
     format!("{} {} | {} | {} | {}", status, r.crashed.len(), fin, r.choices.iter().map(|c| c.to_string()).collect::<Vec<_>>().join(" "), r.tape.join(" ; "))
 }
 pub fn run_par(a: &Args) {
@@ -268,6 +271,9 @@ pub fn run_par(a: &Args) {
     let mut bad = 0;
     for _ in 0..ninst {
         let fam = crate::eng_seq::pick_fam(&mut rng, long_arcs, focus_cache, focus_dom);
+        // cutoff runs: some instances whose costs are all <= 0 with a zero-cost route (optimum 0, bounds meeting at 0:
+        // where a gap computed as 0/0 would show)
+        let fam = if cutoff && rng.chance(1, 5) { if let Fam::Table(mut t) = fam { for e in t.tab.iter_mut() { if let Some((_, c)) = e { if *c > 0 { *c = 0; } } } t.init_val = 0; t.compute_hstar(); Fam::Table(t) } else { fam } } else { fam };
         let kinds: Vec<usize> = if long_arcs { vec![2] } else { vec![0, 1, 2] };
         let mut s = random_cfg(&fam, &mut rng, &kinds);
         if focus_cache { s.cache = true; s.w = WE::F(*rng.pick(&[1usize, 1, 2])); if rng.chance(3, 4) { s.nodup = false; } }
@@ -354,6 +360,7 @@ pub fn run_parstress(a: &Args) {
             catch(|| {
                 let mut s = ParallelSolver::<i64, PTapeDD<D>, PTapeCache<C>>::custom(fam, fam, fam, w, dom, cutoff, fringe, cfg.threads);
                 let c = s.maximize();
+                *LAST_GAP.lock().unwrap() = crate::out::catch(|| crate::eng_small::f32_tokens(s.gap())).unwrap_or("panic".into());
                 (c.is_exact, c.best_value, s.best_lower_bound(), s.best_upper_bound(), s.explored(), s.best_solution())
             })
         }
@@ -366,7 +373,7 @@ pub fn run_parstress(a: &Args) {
             (_, true) => go::<Pooled<i64>, SimpleCache<i64>>(fam, cfg, w.as_ref(), &dom, &cutoff, &mut fringe),
         };
         take_gtape();
-        match r { Some((e, v, lb, ub, ex, sol)) => format!("{} {} {} {} {} 0 | {}", e as u8, v.map(|x| x.to_string()).unwrap_or("none".into()), lb, ub, ex, sol.as_ref().map(|s| decs(s)).unwrap_or("none".into())), None => "panic".into() }
+        match r { Some((e, v, lb, ub, ex, sol)) => format!("{} {} {} {} {} 0 g {} | {}", e as u8, v.map(|x| x.to_string()).unwrap_or("none".into()), lb, ub, ex, LAST_GAP.lock().unwrap().clone(), sol.as_ref().map(|s| decs(s)).unwrap_or("none".into())), None => "panic".into() }
     };
     if let Some(r) = &a.replay {
         let parts: Vec<&str> = r.split('|').collect();
